@@ -540,12 +540,13 @@ func (s *Store[K, V]) DeleteWithSecondary(key K) error {
 	entry, ok := shard.get(key)
 	if ok {
 		shard.delete(entry)
-		if s.secondaryCache != nil {
-			err := s.secondaryCache.Delete(key)
-			if err != nil {
-				shard.mu.Unlock()
-				return err
-			}
+	}
+	// the key may live in the secondary cache only (evicted from memory)
+	if s.secondaryCache != nil {
+		err := s.secondaryCache.Delete(key)
+		if err != nil {
+			shard.mu.Unlock()
+			return err
 		}
 	}
 	shard.mu.Unlock()
